@@ -75,7 +75,9 @@ def rule_only(ctx, layers_full):
     base = repo.cls(LAYERS, "YowLayer")
     # uses of the private lower link
     uses = []
+    from ..repo import inline_self_aliases
     for name, fn in base.methods.items():
+        fn, _al = inline_self_aliases(fn)       # `lower = self.__lower; lower.send(d)` is a use of the link as well
         for n in ast.walk(fn):
             if isinstance(n, ast.Call) and isinstance(n.func, ast.Attribute) and n.func.attr == "send" and "__lower" in unparse(n.func.value):
                 uses.append(name)
@@ -133,12 +135,29 @@ def rule_enc(ctx):
                     if isinstance(n, ast.Call) and isinstance(n.func, ast.Attribute) and n.func.attr == "send" and "_wa_noiseprotocol" in unparse(n.func.value):
                         sites.append("%s.%s" % (c.name, fname))
     ctx.check("C11.enc", sites == ["YowNoiseLayer.send"], where(NOISE, "YowNoiseLayer.send", None), "cipher step called from %s" % sites, "the cipher step must be reachable only through YowNoiseLayer.send (which runs under the coder layer's lock)", "only YowNoiseLayer.send encrypts")
+    # the stream's write callback, abstractly executed for the WRITE event: the segment taken from the stream goes down
+    # through toLower before the callback returns - no thread is started, nothing is queued for later
     hs = repo.method(NOISE, "YowNoiseLayer", "_handle_stream_event")
-    g = CFG(hs)
-    writes = [n for n in g.live if n.kind == "stmt" and unparse(n.stmt) == "self.toLower(self._stream.get_write_segment())"]
-    thread_use = any(isinstance(n, ast.Call) and unparse(n.func).split(".")[-1] in ("Thread", "start", "put", "submit") and "get_write_segment" in unparse(hs) and "Thread" in unparse(n) for n in ast.walk(hs))
-    ctx.check("C11.enc", len(writes) == 1 and not thread_use, where(NOISE, "YowNoiseLayer._handle_stream_event", hs.lineno), writes[0].stmt if writes else hs,
-              "the encrypted segment must be written synchronously in the stream's write callback (no hand-off to another thread or queue)", "segment written synchronously through toLower")
+    whs = where(NOISE, "YowNoiseLayer._handle_stream_event", hs.lineno)
+
+    def write_event(itp):
+        env = {"@module": cls.module, "@owner": cls}
+        return [itp.expr(ast.parse("BlockingQueueSegmentedStream.EVENT_WRITE", mode="eval").body, env, 0)]
+    started = []
+
+    def construct(itp, c, a, k, env, d, e):
+        return None
+    r, it = run_handler(repo, NOISE, "YowNoiseLayer", "_handle_stream_event", write_event, fields={"_stream": ("ext", "stream", []), "_incoming_segments_queue": ("ext", "inq", [])})
+    dn = [e for e in r["effects"] if e[0] == "DOWN"]
+    calls = [e[1] for e in r["effects"] if e[0] == "CALL"]
+    handoff = [c for c in calls if c.split(".")[-1] in ("start", "put", "put_nowait", "submit", "apply_async", "run_in_executor") or "Thread" in c]
+    seg_ok = len(dn) == 1 and dn[0][1][0] in ("fn", "ext") and "get_write_segment" in show(dn[0][1])
+    if r["raised"] or (not dn and not calls):
+        ctx.undecided("C11.enc", whs, hs, "the write callback could not be followed (%s)" % (r["raised"] or "no effect observed for the WRITE event"))
+    else:
+        ctx.check("C11.enc", seg_ok and not handoff, whs, "write event -> toLower(segment)",
+                  "the encrypted segment must be written synchronously in the stream's write callback (no hand-off to another thread or queue); observed %d write(s), calls %s" % (len(dn), calls[:4]),
+                  "segment written synchronously through toLower")
     snd = repo.method(NOISE, "YowNoiseLayer", "send")
     other = [unparse(c.func) for c in ast.walk(snd) if isinstance(c, ast.Call) and is_self_attr(c.func) and c.func.attr in ("toLower", "toUpper")]
     ctx.check("C11.enc", not other, where(NOISE, "YowNoiseLayer.send", snd.lineno), "send only encrypts", "YowNoiseLayer.send writes plaintext or bypasses the cipher (%s)" % other, "nothing written except through the cipher")
@@ -174,10 +193,36 @@ def rule_once_frame(ctx):
     wr = [e for e in r["effects"] if e[0] == "CALL" and e[1] == "dispatcher.sendData"]
     ctx.check("C11.once", len(wr) == 1, where(NET, "YowNetworkLayer.send", None), "network writes once", "each byte string must be handed to the dispatcher exactly once (%d)" % len(wr), "one dispatcher write")
     # dispatcher appends in order
+    # by abstract execution: connect, then sendData(b"CD") on a buffer holding b"AB": when the socket send is initiated the
+    # buffer is b"ABCD"
+    from ..absint import Interp, Obj, _Raise
     d = repo.cls("yowsup/layers/network/dispatcher/dispatcher_asyncore.py", "AsyncoreConnectionDispatcher")
     sd = d.methods["sendData"]
-    ok = any(isinstance(n, ast.Assign) and unparse(n.targets[0]) == "self.out_buffer" and unparse(n.value).replace(" ", "") == "self.out_buffer+data" for n in ast.walk(sd))
-    ctx.check("C11.once", ok, where(d.relpath, "AsyncoreConnectionDispatcher.sendData", sd.lineno), "out_buffer = out_buffer + data", "the dispatcher must append to its output buffer in call order", "appended in call order")
+    wsd = where(d.relpath, "AsyncoreConnectionDispatcher.sendData", sd.lineno)
+    seen = []
+
+    def initiate(itp, fn, owner, self_val, a, k):
+        seen.append(self_val[1].fields.get("out_buffer"))
+        return ("c", None)
+    it = Interp(repo, {}, {}, hooks={"fn:initiate_send": initiate, "method:initiate_send": lambda itp, recv, a, k, env, dd, e: initiate(itp, None, None, recv, a, k)})
+    o = Obj(d)
+    ov = ("obj", o)
+    try:
+        k_, init = repo.find_method(d, "__init__")
+        cbc = [c for c in repo.by_simple.get("ConnectionCallbacks", []) if "dispatcher" in c.relpath]
+        cbs = ("obj", Obj(cbc[0])) if cbc else ("ext", "callbacks", [])
+        it.call_function(init, k_, ov, [cbs], {}, depth=0)
+        o.fields.setdefault("_send_lock", ("ext", "lock", []))
+        it.method_call(ov, "handle_connect", [], {}, {"@module": d.module, "@owner": d}, 0, None)
+        o.fields["out_buffer"] = ("c", b"AB")
+        it.method_call(ov, "sendData", [("c", b"CD")], {}, {"@module": d.module, "@owner": d}, 0, None)
+        problem = None
+    except _Raise as x:
+        problem = x.text
+    if problem or not seen:
+        ctx.undecided("C11.once", wsd, sd, "sendData could not be followed: %s" % (problem or "the send was never initiated for a connected dispatcher"))
+    else:
+        ctx.check("C11.once", seen == [("c", b"ABCD")], wsd, "out_buffer = out_buffer + data", "the dispatcher must append to its output buffer in call order (buffer b'AB' + data b'CD' is sent as %s)" % [show(x) for x in seen], "appended in call order")
 
 
 def rule_disp(ctx):
